@@ -717,6 +717,8 @@ func (w *worker[T, JobType]) Restart() error {
 		return ErrNotRunningWorker
 	}
 
+	// the run that ends here takes its idle-worker ticker and reaper with it (start creates new ones)
+	w.stopTickers()
 	w.closeChannels()
 
 	w.mx.Lock()
